@@ -66,7 +66,8 @@ theorem C03 (cfg : Cfg) (hnd : cfg.dryRun = false) (hcmp : cfg.compare ≠ .igno
 
 /-- **C03, `--ignore-times` (and every other mode).**  The second run leaves the node at every
     path exactly as it is — kind, content id, size, mtime, xattrs, link text and inode (a file
-    rewritten in place keeps its inode) — creates and deletes nothing and does not fail; only the
+    rewritten in place keeps its inode; with `-H` a later member of a link group is re-linked to
+    the node it already is a name of) — creates and deletes nothing and does not fail; only the
     `updated`/`bytes` counters are non-zero, by definition of the flag.  The destination is
     compared path by path (`get?`): the association list itself is reordered by the rewrites. -/
 theorem C03_ignore_times (cfg : Cfg) (hnd : cfg.dryRun = false)
